@@ -28,7 +28,7 @@ func (impl Implementation) Dptsv(n, nrhs int, d, e []float64, b []float64, ldb i
 		panic(badLdB)
 	}
 
-	if n == 0 || nrhs == 0 {
+	if n == 0 {
 		return true
 	}
 
@@ -37,7 +37,7 @@ func (impl Implementation) Dptsv(n, nrhs int, d, e []float64, b []float64, ldb i
 		panic(shortD)
 	case len(e) < n-1:
 		panic(shortE)
-	case len(b) < (n-1)*ldb+nrhs:
+	case nrhs > 0 && len(b) < (n-1)*ldb+nrhs:
 		panic(shortB)
 	}
 
